@@ -4,14 +4,19 @@ import HumphreyModel.Spec.WsApp
 
 /-!
 Replay for C12. A case is `app|real, scenario` and the implementation's output is
-`summary|h4log|execlog|frames|consumed` (see `harness/src/c12.rs`). The H4 log is cut into iterations; each
-iteration yields the `IterInput` the real loop observed and the effects it produced. The inputs are replayed
-through `WsApp.stepLoop`; an iteration whose effects differ is a disagreement between model and code
-(`REJECT@k`). The verdict's `model` field is the summary read off the model's trace followed by the
-implementation's own logs (so that equality is decided by the summary); `spec` evaluates the predicates of
-`Spec/WsApp.lean` on the IMPLEMENTATION's trace, plus: frames written to each client = the `sendTo`/`ping`
-effects for it, handlers executed = handlers dispatched (same order with one handler thread), and the
-messages dispatched for a client = what its script sent.
+`summary|h4log|execlog|frames|consumed|closed` (see `harness/src/c12.rs`; an output without the last field is
+accepted). The scenario names the handlers the app was built with (`hs=<subset of cmd>`, `-` for none; absent =
+all three): that is the configuration `Handlers` of the model. The H4 log is cut into iterations; each
+iteration yields the `IterInput` the real loop observed and the effects it produced (dispatches, sends, pings
+and removals `x<a>` = `Effect.drop`). The inputs are replayed through `WsApp.stepLoop h`; an iteration whose
+effects differ is a disagreement between model and code (`REJECT@k`). The verdict's `model` field is the summary
+read off the model's trace followed by the implementation's own logs (so that equality is decided by the
+summary); `spec` evaluates the predicates of `Spec/WsApp.lean` on the IMPLEMENTATION's trace — the dispatch
+predicates for the registered handlers (none of an unregistered kind), the removal / polling / silence / send
+predicates for every configuration, from the loop's own events and the sockets, never from a handler — plus:
+frames written to each client = the `sendTo`/`ping` effects for it, the sockets closed while the loop ran = the
+streams removed, handlers executed = handlers dispatched (same order with one handler thread), and the messages
+dispatched for a client = what its script sent.
 -/
 namespace Humphrey.Driver.C12
 open Humphrey Humphrey.Driver Humphrey.WsApp Humphrey.WsAppSpec
@@ -73,7 +78,7 @@ def token (a : Acc) (t : String) : Option Acc :=
     | 'd', [ad] => ad.toNat?.map fun ad => { a with effects := a.effects ++ [.dispatchDisconnect ad] }
     | 'c', [ad] => ad.toNat?.map fun ad => { a with effects := a.effects ++ [.dispatchConnect ad] }
     | 'p', [ad] => ad.toNat?.map fun ad => { a with effects := a.effects ++ [.ping ad] }
-    | 'x', [ad] => ad.toNat?.map fun _ => a
+    | 'x', [ad] => ad.toNat?.map fun ad => { a with effects := a.effects ++ [.drop ad] }
     | 't', [ad] => ad.toNat?.map fun ad => { a with timedOut := a.timedOut ++ [ad] }
     | 'a', [ad, f] => ad.toNat?.map fun ad => { a with incoming := a.incoming ++ [ad], reuse := a.reuse || f == "1" }
     | 'u', [ad, f, m] =>
@@ -122,6 +127,7 @@ def effTok (e : Effect) : String :=
   | .dispatchDisconnect a => s!"d{a}"
   | .sendTo a b => s!"s{a}:{hex b}"
   | .ping a => s!"p{a}"
+  | .drop a => s!"x{a}"
   | .exit => "X"
   | .panic => "PANIC"
 
@@ -130,19 +136,19 @@ structure Replay where
   trace : List Effect := []      -- the model's
   error : Option String := none
 
-def replayIter (r : Replay) (k : Nat) (it : Iter) : Replay :=
+def replayIter (h : Handlers) (r : Replay) (k : Nat) (it : Iter) : Replay :=
   if r.error.isSome then r
   else if !InputsOk r.state it.input then { r with error := some s!"INPUTS-NOT-OK@{k}" }
   else
-    let (s', e) := stepLoop r.state it.input
+    let (s', e) := stepLoop h r.state it.input
     if e != it.effects then
       { r with error := some s!"REJECT@{k}:{" ".intercalate (e.map effTok)}" }
     else if it.repeats > 0 && (e != [] || s' != r.state) then
       { r with error := some s!"REJECT-REPEAT@{k}" }
     else { state := s', trace := r.trace ++ e }
 
-def replayAll (its : List Iter) : Replay :=
-  ((its.zipIdx).foldl (fun r (p : Iter × Nat) => replayIter r p.2 p.1) {})
+def replayAll (h : Handlers) (its : List Iter) : Replay :=
+  ((its.zipIdx).foldl (fun r (p : Iter × Nat) => replayIter h r p.2 p.1) {})
 
 def isDispatch : Effect → Bool
   | .dispatchConnect _ | .dispatchMessage _ _ | .dispatchDisconnect _ => true
@@ -180,10 +186,20 @@ def parseItem (acc : Script) (s : String) : Script :=
   | 'C' :: _ | ['G'] | ['R'] => { acc with ends := true }
   | _ => acc
 
-def parseScripts (scn : String) : List Script × Nat :=
-  let kv := (scn.splitOn ";").map fun f => match f.splitOn "=" with
+def scnFields (scn : String) : List (String × String) :=
+  (scn.splitOn ";").map fun f => match f.splitOn "=" with
     | [a, b] => (a, b)
     | _ => ("", "")
+
+/-- The handlers the app of the scenario was built with: `hs=` followed by a subset of the letters `c`, `m`, `d`
+(`-` for none); a scenario without the field (older case lines) has all three. -/
+def parseHandlers (scn : String) : Handlers :=
+  match (scnFields scn).lookup "hs" with
+  | none => {}
+  | some v => { connect := v.contains 'c', message := v.contains 'm', disconnect := v.contains 'd' }
+
+def parseScripts (scn : String) : List Script × Nat :=
+  let kv := scnFields scn
   let threads := ((kv.lookup "t").bind String.toNat?).getD 0
   match kv.lookup "cl" with
   | none => ([], threads)
@@ -216,8 +232,12 @@ def parseExec (s : String) : Option (List Effect) :=
 def firstFail (checks : List (String × Bool)) : Option String :=
   (checks.find? (!·.2)).map (·.1)
 
-def judge (isReal : Bool) (scn : String) (p : Parsed) (summary exec frames consumed : String) :
-    Option Bool × String :=
+def parseIds (s : String) : List Nat :=
+  if s.isEmpty then [] else (s.splitOn ",").filterMap String.toNat?
+
+def judge (isReal : Bool) (scn : String) (p : Parsed) (summary exec frames consumed : String)
+    (closed : Option String) : Option Bool × String :=
+  let h := parseHandlers scn
   let its := p.iters
   let inputs : List IterInput := its.map (·.input) ++ (if p.sawShutdown then [{ shutdown := true }] else [])
   let T : List Effect := its.flatMap (·.effects) ++ (if p.exited then [.exit] else [])
@@ -231,11 +251,20 @@ def judge (isReal : Bool) (scn : String) (p : Parsed) (summary exec frames consu
   | _, none => (some false, "bad-exec-field")
   | some fr, some ex =>
     let perClient : List (String × Bool) := addrs.flatMap fun a =>
-      [ (s!"connect_once_before_messages:{a}",
-          if adm.contains a then decide (ConnectOnceBeforeMessages a T) else T.count (.dispatchConnect a) == 0),
-        (s!"message_once_in_order:{a}", decide (MessagesOnceInOrder a inputs T)),
+      [ -- for every configuration, from the loop's own events
+        (s!"removed_once_then_silence:{a}",
+          if closings a inputs == 0 then T.count (.drop a) == 0
+          else closings a inputs == 1 && decide (RemovedOnceThenSilence a T)),
+        (s!"closed_client_not_polled_again:{a}", notPolledAfterClose a (executed inputs)),
+        (s!"never_admitted_silent:{a}", adm.contains a || decide (Silent a T)),
+        -- for the registered handlers (no dispatch of an unregistered kind)
+        (s!"connect_once_before_messages:{a}",
+          if h.connect && adm.contains a then decide (ConnectOnceBeforeMessages a T)
+          else T.count (.dispatchConnect a) == 0),
+        (s!"message_once_in_order:{a}",
+          if h.message then decide (MessagesOnceInOrder a inputs T) else (T.filterMap (msgOf a)).isEmpty),
         (s!"disconnect_once_then_silence:{a}",
-          if closings a inputs == 0 then T.count (.dispatchDisconnect a) == 0
+          if !h.disconnect || closings a inputs == 0 then T.count (.dispatchDisconnect a) == 0
           else closings a inputs == 1 && decide (DisconnectOnceThenSilence a T)),
         (s!"frames_eq_sends:{a}",
           let ws := ((fr.lookup a).getD [])
@@ -252,19 +281,30 @@ def judge (isReal : Bool) (scn : String) (p : Parsed) (summary exec frames consu
         (live, acc.2.1 ++ cs, acc.2.2 + 1)) ([], [], 0)).2.1
     let D := T.filter isDispatch
     let (scripts, threads) := parseScripts scn
-    let cons := if consumed.isEmpty then [] else (consumed.splitOn ",").filterMap String.toNat?
+    let cons := parseIds consumed
+    -- what the app received from a client (its poll results), whether or not a message handler exists
+    let recvd (c : Addr) : List Msg := received c inputs
     let scriptChecks : List (String × Bool) :=
       if isReal then [] else
       (scripts.zipIdx).flatMap fun (sc, c) =>
-        let got := T.filterMap (msgOf c)
+        let got := recvd c
         [ (s!"script_messages:{c}",
             if cons.contains c then got == sc.msgs else got.isPrefixOf sc.msgs),
+          (s!"script_removed:{c}",
+            !(cons.contains c && sc.ends) || T.count (.drop c) == 1),
           (s!"script_disconnect:{c}",
-            !(cons.contains c && sc.ends) || T.count (.dispatchDisconnect c) == 1) ]
+            !(cons.contains c && sc.ends && h.disconnect) || T.count (.dispatchDisconnect c) == 1) ]
+    -- the scripted sockets closed (stream dropped) while the loop was running = the streams removed
+    let socketChecks : List (String × Bool) :=
+      match isReal, closed with
+      | false, some cl =>
+        let cl := parseIds cl
+        (addrs ++ cl).eraseDups.map fun a => (s!"socket_closed_iff_removed:{a}", cl.contains a == (T.count (.drop a) != 0))
+      | _, _ => []
     let checks : List (String × Bool) :=
       [ ("wedged", !summary.startsWith "WEDGED" && summary.startsWith "returned"),
         ("shutdown_returns", !p.sawShutdown || (p.exited && decide (ExitsLast T))) ] ++
-      perClient ++ flushes ++
+      perClient ++ flushes ++ socketChecks ++
       [ ("executed_eq_dispatched", (D ++ ex).all fun e => D.count e == ex.count e),
         ("one_thread_execution_order", threads != 1 || ex == D) ] ++ scriptChecks
     match firstFail checks with
@@ -274,22 +314,28 @@ def judge (isReal : Bool) (scn : String) (p : Parsed) (summary exec frames consu
 def dispatch (fn : String) (args : List String) (impl : String) : Option Verdict :=
   match fn, args with
   | "app", [scn] | "real", [scn] =>
-    match impl.splitOn "|" with
-    | [summary, log, exec, frames, consumed] =>
+    let fields : Option (String × String × String × String × String × Option String) :=
+      match impl.splitOn "|" with
+      | [summary, log, exec, frames, consumed] => some (summary, log, exec, frames, consumed, none)
+      | [summary, log, exec, frames, consumed, closed] => some (summary, log, exec, frames, consumed, some closed)
+      | _ => none
+    match fields with
+    | some (summary, log, exec, frames, consumed, closed) =>
+      let h := parseHandlers scn
       let toks := (log.splitOn " ").filter (!·.isEmpty)
       match parseLog toks none {} with
       | none => some { model := "BADLOG", spec := some false, reason := "bad-log" }
       | some p =>
-        let r := replayAll p.iters
-        let tail := s!"|{log}|{exec}|{frames}|{consumed}"
-        let (spec, reason) := judge (fn == "real") scn p summary exec frames consumed
+        let r := replayAll h p.iters
+        let tail := s!"|{log}|{exec}|{frames}|{consumed}" ++ (match closed with | some c => s!"|{c}" | none => "")
+        let (spec, reason) := judge (fn == "real") scn p summary exec frames consumed closed
         match r.error with
         | some e => some { model := e, spec := spec, reason := reason }
         | none =>
-          let T := if p.sawShutdown then (runLoop r.state [{ shutdown := true }]).2 else []
+          let T := if p.sawShutdown then (runLoop h r.state [{ shutdown := true }]).2 else []
           let T := r.trace ++ (if p.exited then T else [])
           some { model := summaryOf T ++ tail, spec := spec, reason := reason }
-    | _ => some { model := "BADOUT", spec := some false, reason := "bad-output" }
+    | none => some { model := "BADOUT", spec := some false, reason := "bad-output" }
   | _, _ => none
 
 end Humphrey.Driver.C12
